@@ -66,13 +66,15 @@ CONFIG = [
                               "chunked_reading_mode_setter", "remaining", "next_chunk", "position", "_read_byte", "_read_bytes",
                               "_find_next_break_index", "_remove_padding", "_decode_ansi"]},
      "properties": {"position": "_position", "chunked_reading_mode": "_chunked_reading_mode"}},
+    {"tag": "Names", "file": "protocol_code_generator/util/name_utils.py", "untyped_params": "str",
+     "functions": ["pascal_case_to_snake_case", "snake_case_to_pascal_case"], "classes": {}},
     {"tag": "Enc", "file": "src/eolib/encrypt/encryption_utils.py",
      "functions": ["interleave", "deinterleave", "flip_msb", "swap_multiples"], "classes": {},
      # fuel handed to `while` loops (a Lean term over the parameters); running out is reported as Diverges
      "fuel": "(data.length + 2)"},
 ]
 
-LEAN_TY = {"int": "Int", "bool": "Bool", "bytes": "(List Int)", "str": "(List Nat)", "none": "Unit", "valueobj": "Int", "unit": "Unit"}
+LEAN_TY = {"int": "Int", "bool": "Bool", "bytes": "(List Int)", "str": "(List Nat)", "char": "Nat", "none": "Unit", "valueobj": "Int", "unit": "Unit"}
 EXC = {"ValueError": ".ValueError", "RuntimeError": ".RuntimeError", "TypeError": ".TypeError",
        "ZeroDivisionError": ".ZeroDivisionError"}
 
@@ -417,7 +419,7 @@ def resolve_callee(mod, cls, call: ast.Call):
 def has_ctrl(stmts, in_loop_only_break=True):
     """does the statement list contain a return, or a break that belongs to an enclosing loop?"""
     for st in stmts:
-        if isinstance(st, (ast.Return, ast.Break, ast.Raise)):
+        if isinstance(st, (ast.Return, ast.Break, ast.Raise, ast.Continue)):
             return True
         if isinstance(st, ast.If) and (has_ctrl(st.body) or has_ctrl(st.orelse)):
             return True
@@ -468,6 +470,8 @@ class FnTr:
                 return ("true" if e.value else "false"), "bool", []
             if isinstance(e.value, int):
                 return f"({e.value} : Int)", "int", []
+            if isinstance(e.value, str):
+                return "([" + ", ".join(str(ord(ch)) for ch in e.value) + "] : List Nat)", "str", []
             raise Unsupported(f"constant {e.value!r}")
         if isinstance(e, ast.Name):
             if e.id in env:
@@ -507,6 +511,8 @@ class FnTr:
         if isinstance(e, ast.BinOp):
             a, ta, pa = self._expr(e.left, env)
             b, tb, pb = self._expr(e.right, env)
+            if isinstance(e.op, ast.Add) and ta == "str" and tb in ("str", "char"):
+                return (f"({a} ++ {b})" if tb == "str" else f"({a} ++ [{b}])"), "str", pa + pb
             if ta != "int" or tb != "int":
                 raise Unsupported("arithmetic on non-integers")
             pre = pa + pb
@@ -546,6 +552,11 @@ class FnTr:
                 if pr and parts:
                     raise Unsupported("chained comparison with an operation that can raise")
                 pre += pr
+                if tl == "char" and isinstance(right, ast.Constant) and isinstance(right.value, str) and len(right.value) == 1 \
+                        and isinstance(op, (ast.Eq, ast.NotEq)):
+                    parts.append(f"decide ({left} {'=' if isinstance(op, ast.Eq) else '≠'} {ord(right.value)})")
+                    left, tl = r, tr_
+                    continue
                 if tl != tr_ and not ({tl, tr_} <= {"int"}):
                     raise Unsupported("comparison of different types")
                 sym = {ast.Lt: "<", ast.LtE: "≤", ast.Gt: ">", ast.GtE: "≥", ast.Eq: "=", ast.NotEq: "≠"}.get(type(op))
@@ -588,6 +599,9 @@ class FnTr:
                 return f"({fn} {xs} {k})", "bytes", px + pk
             xs, tx, px = self._expr(e.value, env)
             i, ti, pi = self._expr(e.slice, env)
+            if tx == "str" and ti == "int":
+                t = self.fresh()
+                return t, "char", px + pi + [lambda code, xs=xs, i=i, t=t: f"Py.getChar {xs} {i} fun {t} =>\n{code}"]
             if tx != "bytes" or ti != "int":
                 raise Unsupported("subscript")
             t = self.fresh()
@@ -676,6 +690,11 @@ class FnTr:
                 pre = args[0][2] + args[1][2]
                 a, b = args[0][0], args[1][0]
                 return t, "int", pre + [lambda code, a=a, b=b, r=r, t=t: f"Py.randrange {a} {b} {r} fun {t} =>\n{code}"]
+            if f.attr in ("isupper", "islower", "lower", "upper") and not e.args:
+                a, ta, pa = self._expr(f.value, env)
+                if ta == "char":
+                    fn = {"isupper": "Py.chrIsUpper", "islower": "Py.chrIsLower", "lower": "Py.chrLower", "upper": "Py.chrUpper"}[f.attr]
+                    return f"({fn} {a})", ("bool" if f.attr.startswith("is") else "char"), pa
             if f.attr == "copy" and not e.args:
                 a, ta, pa = self._expr(f.value, env)
                 if ta == "bytes":
@@ -905,6 +924,10 @@ class FnTr:
             if loop is None:
                 raise Unsupported("break outside a loop")
             return f".ok ({tup(loop)}, true)"
+        if isinstance(st, ast.Continue):
+            if loop is None:
+                raise Unsupported("continue outside a for loop")
+            return f".ok ({tup(loop)}, false)"
         if isinstance(st, ast.If):
             return self.if_stmt(st, body, idx, env, loop, end)
         if isinstance(st, ast.For):
@@ -1017,6 +1040,25 @@ class FnTr:
         return self.info["name"].replace(".", "_") + f"_loop{self.nloops}"
 
     def for_stmt(self, st, env, rest, outer_loop=None):
+        # `for c in s` / `for i, c in enumerate(s)` over a string: a range loop that first binds the character
+        it0 = st.iter
+        seq, ivar, cvar = None, None, None
+        if isinstance(it0, ast.Name) and env.get(it0.id) == "str" and isinstance(st.target, ast.Name):
+            seq, ivar, cvar = it0, f"i_{self.nloops + 1}", st.target.id
+        elif isinstance(it0, ast.Call) and isinstance(it0.func, ast.Name) and it0.func.id == "enumerate" and len(it0.args) == 1 \
+                and isinstance(it0.args[0], ast.Name) and env.get(it0.args[0].id) == "str" and isinstance(st.target, ast.Tuple) \
+                and len(st.target.elts) == 2 and all(isinstance(x, ast.Name) for x in st.target.elts):
+            seq, ivar, cvar = it0.args[0], st.target.elts[0].id, st.target.elts[1].id
+        if seq is not None:
+            if seq.id in assigned_vars(st.body):
+                raise Unsupported("the string is assigned inside the loop over it")
+            bind = ast.Assign(targets=[ast.Name(id=cvar, ctx=ast.Store())],
+                              value=ast.Subscript(value=ast.Name(id=seq.id, ctx=ast.Load()), slice=ast.Name(id=ivar, ctx=ast.Load()), ctx=ast.Load()))
+            st = ast.For(target=ast.Name(id=ivar, ctx=ast.Store()),
+                         iter=ast.Call(func=ast.Name(id="range", ctx=ast.Load()),
+                                       args=[ast.Call(func=ast.Name(id="len", ctx=ast.Load()), args=[ast.Name(id=seq.id, ctx=ast.Load())], keywords=[])],
+                                       keywords=[]),
+                         body=[bind] + list(st.body), orelse=st.orelse)
         if st.orelse or not isinstance(st.target, ast.Name):
             raise Unsupported("for loop form")
         it = st.iter
